@@ -1258,13 +1258,22 @@ impl<'l> CelCompiler<'l> {
             Some(TokenWithLoc {
                 token: Token::IntLit(val),
                 loc,
-            }) => Ok((
-                CompiledProg::with_const((val as i64).into()),
-                AstNode::new(
-                    Primary::Literal(LiteralsAndKeywords::IntegerLit(val as i64)),
-                    loc,
-                ),
-            )),
+            }) => {
+                // The tokenizer reads the digits as u64; an int literal has to fit in i64
+                if val > i64::MAX as u64 {
+                    return Err(SyntaxError::from_location(loc.start())
+                        .with_message(format!("Integer literal {} is out of range", val))
+                        .into());
+                }
+
+                Ok((
+                    CompiledProg::with_const((val as i64).into()),
+                    AstNode::new(
+                        Primary::Literal(LiteralsAndKeywords::IntegerLit(val as i64)),
+                        loc,
+                    ),
+                ))
+            }
             Some(TokenWithLoc {
                 token: Token::FloatLit(val),
                 loc,
